@@ -51,7 +51,8 @@ CHECKS = {
             "block interpreter is the checker's reading of the statement; horizon bounds loop unrolling"),
     "C09": ("exhaustive enumeration of generated programs (skeletons, opcode-targeted snippets) and a complete sweep of a fixed stdlib corpus; "
             "library graph compared with a reference CFG from dis metadata, under CPython 3.12 and 3.11; histories (rebuild after in-place "
-            "restructuring) and input forms (code object, function, bound method, function carrying __wrapped__)",
+            "restructuring, __code__ replaced on the same function object) and input forms (code object, function, bound method, function "
+            "carrying __wrapped__); functions of ~1000 blocks under the default recursion limit",
             "The program space is enumerated and the corpus swept completely; every block and successor edge is compared with the interpreter's "
             "own opcode metadata.",
             "reference classification of opcodes is completeness-guarded; only interpreters present in the image (3.12, 3.11)"),
@@ -66,7 +67,8 @@ CHECKS = {
             "census is static: it does not establish that the emitted code is placed on the right path (C07 does)"),
     "C12": ("stateless depth-first exploration over set-iteration orders: every set of the library is replaced (import-time AST rewriting) by a "
             "set whose iteration order / pop choice the explorer picks, deviation-bounded, on graphs under default and name-interleaving "
-            "labellings; plus real PYTHONHASHSEED sub-process runs bound to it",
+            "and tie-producing labellings (leading zeros, case, name flavour), sets owned at construction AND iteration sites; plus real "
+            "PYTHONHASHSEED sub-process runs bound to it",
             "The hash-seed nondeterminism is owned by the explorer instead of hoped for: every order of every iterated set (within the deviation "
             "bound) is executed and the exact canonical dump compared.",
             "hash randomisation acts only through set iteration order; deviation bound d <= 2"),
@@ -82,12 +84,13 @@ CHECKS = {
             "loop-restructured graphs (region and branching-synthetic predecessors).",
             "depth and subset-size bounds (DESIGN 4/C14)"),
     "C17": ("exhaustive enumeration of graphs x stage prefixes (skeleton bytecode functions; source graphs whose statement texts contain "
-            "formatter / DOT metacharacters); the DOT source is parsed and compared with the hierarchy",
+            "formatter / DOT metacharacters; one block of every registered type); the DOT source is parsed and compared with the hierarchy",
             "Every rendering of every enumerated hierarchy is compared node by node, cluster by cluster, edge by edge.",
             "DOT text only; graphviz package's own quoting is trusted"),
     "C15": ("exhaustive exploration of histories: stage pipeline with all placements of <= 2 dict/YAML write-read round trips in the gaps, over "
             "exhaustively enumerated graphs (closed CFGs under several namings, and ALL small digraphs incl. non-closed ones); each round "
-            "trip is the real writer + reader; field-by-field comparison incl. successor order; what was written must not change later",
+            "trip is the real writer + reader; field-by-field comparison incl. successor order; what was written must not change later; "
+            "one hand-built graph with a block of every type in the library's registry",
             "Histories (stage prefixes interleaved with round-trip chains) are enumerated completely within the deviation bound.",
             "at most 2 round trips per history; AST payload outside the domain"),
     "C18": ("explicit-state BFS over name-request sequences; exhaustive histories (stages interleaved with reloads) with the name generator "
